@@ -3,7 +3,7 @@ import ast
 import itertools
 
 from ..loader import AnalysisError, attr_path, src, walk_no_nested_defs, norm_stmt, call_name
-from ..symx import SymX, classify, show, C, TRUE, FALSE, simp, is_const, mk_add, mk_mul, negate
+from ..symx import SymX, classify, show, C, TRUE, FALSE, simp, is_const, mk_add, mk_mul, negate, mentions
 from ..guards import Evaluator, EvalUnsupported
 from . import C02, C08, shared
 from ..pointsto import MUTATORS as _MUTATORS
@@ -539,8 +539,16 @@ def r3_reproducible(ctx, chk, rule="C15.3"):
     scope = ctx.cg.reachable([f])
     n = 0
     for g in scope:
+        # local names for the draw functions: `rnd = random.random` (bound once)
+        alias = {}
+        for a_ in walk_no_nested_defs(g.node):
+            if isinstance(a_, ast.Assign) and len(a_.targets) == 1 and isinstance(a_.targets[0], ast.Name) and isinstance(a_.value, ast.Attribute) \
+                    and attr_path(a_.value) in RANDOM_DRAWS:
+                nm = a_.targets[0].id
+                if sum(1 for x in walk_no_nested_defs(g.node) if isinstance(x, ast.Name) and x.id == nm and isinstance(x.ctx, ast.Store)) == 1 and nm not in g.params:
+                    alias[nm] = attr_path(a_.value)
         for c in walk_no_nested_defs(g.node):
-            if isinstance(c, ast.Call) and call_name(c) in RANDOM_DRAWS:
+            if isinstance(c, ast.Call) and (call_name(c) in RANDOM_DRAWS or (isinstance(c.func, ast.Name) and c.func.id in alias)):
                 n += 1
                 if g is f:
                     ok = cfg.dominates(s, c) and cfg.stmt_of(s) is not cfg.stmt_of(c)
@@ -684,6 +692,35 @@ def r3b_no_hash_order(ctx, chk, rule="C15.3"):
         chk.ok(rule, f.where(), "no random draw in the board construction takes its population / weights in set-iteration order")
 
 
+def _first_use_constants(sx, t):
+    """`(E if guard@L is None else w@L)` where w is only ever set to the loop-invariant E under that very test: E."""
+    def invariant(e):
+        return not mentions(e, lambda x: x[0] in ("acc", "elem", "pos", "res", "compr") or (x[0] == "call" and x[1].startswith("random.")))
+
+    def g(x):
+        if x[0] == "ite" and x[1][0] == "cmp" and x[1][1] in ("is", "==") and x[1][3] == C(None) and x[1][2][0] == "acc" and x[3][0] == "acc" and invariant(x[2]):
+            w = x[3]
+            L = sx.loops.get(w[1])
+            if L is None:
+                return None
+            uw = L.update.get(w[2])
+            if uw == x or uw == w:
+                return x[2]
+        return None
+    from ..symx import subst as _subst, deep_simp as _ds
+    return _ds(_subst(t, g))
+
+
+def _bitlength_reward(val, mr):
+    """`n - random.getrandbits(n).bit_length()` with n = max_reward + 1 (leading zeros of an n-bit word): ranges over 0..n, i.e.
+    up to max_reward + 1.  Returns the text of n, or None when the expression is something else."""
+    n = simp(("add", (mr, C(1))))
+    bl = ("mcall", ("call", "random.getrandbits", (n,), ()), "bit_length", (), ())
+    if val == simp(("add", (n, negate(bl)))) or val == simp(("add", (negate(bl), n))) or val == simp(("add", (negate(bl), mr, C(1)))):
+        return show(n)
+    return None
+
+
 def table_cells(sx, name, rows_src, cols_src):
     """How the table `name` is filled: ('ok', element term) if it is `rows` rows of `cols` unconditional appends - in the
     idiom `t.append([]); t[i].append(x)`, `row = []; row.append(x); t.append(row)` or nested comprehensions;
@@ -761,6 +798,16 @@ def table_cells(sx, name, rows_src, cols_src):
                     return "bad", "columns are filled by a loop over `%s`" % show(Li.source)
                 if fo is not None and fo.kind == "COLLECT" and Li.init.get(row[2]) == ("list", ()) and Li.filter == TRUE and not Li.has_break and Li.cont == FALSE:
                     return "ok", fo.term
+                # one unconditional append per column whose element refers to values computed once, on first use
+                # (`if eps is None: eps = ...; scale = ...`): those are what they are computed from
+                ur = Li.update.get(row[2])
+                acc_r = ("acc", Li.id, row[2])
+                if ur is not None and ur[0] == "cat" and ur[1] == acc_r and ur[2][0] == "list" and len(ur[2][1]) == 1 and Li.init.get(row[2]) == ("list", ()) \
+                        and not Li.has_break and not Li.has_return and Li.cont == FALSE:
+                    el = _first_use_constants(sx, ur[2][1][0])
+                    if not mentions(el, lambda x: x[0] == "acc"):
+                        return "ok", el
+                    return None, "a row element refers to values carried between the tiles: `%s`" % show(el)[:100]
                 return "bad", "a row is not `width` unconditional appends (%s)" % (fo,)
             if row[0] == "compr":
                 Li = sx.loops[row[1]]
@@ -867,6 +914,11 @@ def r45_shape_values(ctx, chk, rule4="C15.4", rule5="C15.5", rule6="C15.6"):
         verdict = reward_formula(val, U, ("v", "max_reward"))
         if verdict is True:
             chk.ok(rule6, f.where(), "reward = floor(-log(a + U*(1-a)) / log 2), a = 2^-(max_reward+1): argument in [a,1] => reward in [0, max_reward] (max_reward+1 only for U == 0.0)")
+        elif verdict is None and _bitlength_reward(val, ("v", "max_reward")) is not None:
+            n_bits = _bitlength_reward(val, ("v", "max_reward"))
+            chk.violation(rule6, f.where(), "reward = %s - bit_length(getrandbits(%s)): the random word is 0 with probability 2^-(%s), its bit_length is then 0 and the reward is %s, "
+                          "one more than max_reward" % (n_bits, n_bits, n_bits, n_bits), expected="0 <= reward <= max_reward", found=show(val)[:120],
+                          construct="gen_rnd_board reward range")
         elif verdict is None:
             chk.undecided(rule6, f.where(), "reward expression `%s` not recognised" % show(val)[:200])
         else:
